@@ -10,17 +10,30 @@
 (* for every c >= the largest entry (the property's precondition).  After  *)
 (* the last entry every read is empty.  Sizes are real encoded sizes       *)
 (* (49 + string bytes), so the harness realises them by name lengths.      *)
+(*                                                                         *)
+(* Beyond the property's universe (growth): the iterator may fail once, at *)
+(* its failb-th call (WithIterFail).  Entries are fetched batch by batch   *)
+(* as the read needs them (one entry of look-ahead when the buffer still   *)
+(* has room).  A read during which the fetch fails reports an error; the   *)
+(* entries it had already gathered count as delivered (the running offset  *)
+(* advances past them), so that a retry at the old offset is rejected      *)
+(* instead of silently continuing after a hole.                            *)
 (***************************************************************************)
 EXTENDS Integers, Sequences, FiniteSets, TLC
 
 CONSTANTS Sizes,       \* entry sizes, e.g. {50, 51, 57, 100}
           MaxEntries,
           Counts,      \* read sizes, each >= the largest size
-          MaxReads
+          MaxReads,
+          WithIterFail \* TRUE: the iterator may fail once
 
-VARIABLES listing, batches, pos, off, nreads, last
-vars == <<listing, batches, pos, off, nreads, last>>
-View == <<listing, batches, pos, off, nreads>>
+VARIABLES listing, batches, pos, off, nreads,
+          fetched,  \* entries the iterator has handed out so far
+          nb,       \* iterator calls that handed out a batch
+          failb,    \* the iterator call that fails (0: none / already happened); Len(batches)+1 is the call that would report the end
+          last
+vars == <<listing, batches, pos, off, nreads, fetched, nb, failb, last>>
+View == <<listing, batches, pos, off, nreads, fetched, nb, failb>>
 
 RECURSIVE Sum(_)
 Sum(s) == IF s = <<>> THEN 0 ELSE Head(s) + Sum(Tail(s))
@@ -29,29 +42,44 @@ RECURSIVE Cuts(_)
 Cuts(n) == IF n = 0 THEN {<<>>} ELSE UNION {{<<k>> \o c : c \in Cuts(n - k)} : k \in 1..n}
 
 Unset == <<-1>>
-Init == listing = Unset /\ batches = <<>> /\ pos = 0 /\ off = 0 /\ nreads = 0
-        /\ last = [op |-> "init", c |-> 0, o |-> 0, k |-> 0, bytes |-> 0, err |-> FALSE]
+Init == listing = Unset /\ batches = <<>> /\ pos = 0 /\ off = 0 /\ nreads = 0 /\ fetched = 0 /\ nb = 0 /\ failb = 0
+        /\ last = [op |-> "init", c |-> 0, o |-> 0, k |-> 0, bytes |-> 0, err |-> FALSE, ierr |-> FALSE]
 
 Setup == /\ listing = Unset
          /\ \E n \in 0..MaxEntries : \E l \in [1..n -> Sizes] : \E b \in Cuts(n) :
               /\ listing' = l /\ batches' = b
-         /\ UNCHANGED <<pos, off, nreads>>
-         /\ last' = [op |-> "setup", c |-> 0, o |-> 0, k |-> 0, bytes |-> 0, err |-> FALSE]
+              /\ failb' \in (IF WithIterFail THEN 0..(Len(b) + 1) ELSE {0})
+         /\ UNCHANGED <<pos, off, nreads, fetched, nb>>
+         /\ last' = [op |-> "setup", c |-> 0, o |-> 0, k |-> 0, bytes |-> 0, err |-> FALSE, ierr |-> FALSE]
 
 \* number of whole entries from position p that fit into c bytes
 RECURSIVE Fit(_, _)
 Fit(p, c) == IF p >= Len(listing) \/ listing[p + 1] > c THEN 0 ELSE 1 + Fit(p + 1, c - listing[p + 1])
 
+\* the read loop, entry by entry: p entries delivered so far, room bytes left, fe entries fetched, n batches fetched, fb failing call
+RECURSIVE Rd(_, _, _, _, _)
+Rd(p, room, fe, n, fb) ==
+  IF room = 0 THEN [p |-> p, fe |-> fe, n |-> n, fb |-> fb, ierr |-> FALSE]          \* exactly full: no look-ahead
+  ELSE IF p >= fe THEN                                                                  \* the next entry must be fetched
+         IF n + 1 = fb THEN [p |-> p, fe |-> fe, n |-> n, fb |-> 0, ierr |-> TRUE]     \* ... and that call fails (once)
+         ELSE IF n >= Len(batches) THEN [p |-> p, fe |-> fe, n |-> n, fb |-> fb, ierr |-> FALSE]   \* end of directory
+         ELSE Rd(p, room, fe + batches[n + 1], n + 1, fb)
+  ELSE IF listing[p + 1] > room THEN [p |-> p, fe |-> fe, n |-> n, fb |-> fb, ierr |-> FALSE]      \* kept for the next read
+  ELSE Rd(p + 1, room - listing[p + 1], fe, n, fb)
+
 Read(c, o) ==
   /\ listing # Unset /\ nreads < MaxReads
   /\ nreads' = nreads + 1
   /\ IF o # off THEN
-       /\ UNCHANGED <<pos, off>>
-       /\ last' = [op |-> "read", c |-> c, o |-> o, k |-> 0, bytes |-> 0, err |-> TRUE]
-     ELSE LET k == Fit(pos, c)
+       /\ UNCHANGED <<pos, off, fetched, nb, failb>>
+       /\ last' = [op |-> "read", c |-> c, o |-> o, k |-> 0, bytes |-> 0, err |-> TRUE, ierr |-> FALSE]
+     ELSE LET r == Rd(pos, c, fetched, nb, failb)
+              k == r.p - pos
               b == Sum(SubSeq(listing, pos + 1, pos + k)) IN
-       /\ pos' = pos + k /\ off' = off + b
-       /\ last' = [op |-> "read", c |-> c, o |-> o, k |-> k, bytes |-> b, err |-> FALSE]
+       /\ pos' = r.p /\ off' = off + b /\ fetched' = r.fe /\ nb' = r.n /\ failb' = r.fb
+       /\ last' = [op |-> "read", c |-> c, o |-> o, k |-> k, bytes |-> b, err |-> FALSE, ierr |-> r.ierr]
+       \* without an iterator failure the loop delivers exactly the longest fitting prefix
+       /\ (~r.ierr) => k = Fit(pos, c)
   /\ UNCHANGED <<listing, batches>>
 
 \* reads at the running offset, and at wrong offsets (0 again, one short, one ahead)
@@ -65,9 +93,11 @@ Listed == listing # Unset
 \* what has been delivered is exactly the first pos entries, whole: the offset is their total size
 OffsetIsPrefix == Listed => off = Sum(SubSeq(listing, 1, pos))
 \* a read at the right offset with room for the next entry makes progress until the end (no entry is lost)
-Progress == [][(last'.op = "read" /\ ~last'.err /\ pos < Len(listing)) => last'.k >= 1]_vars
+Progress == [][(last'.op = "read" /\ ~last'.err /\ ~last'.ierr /\ pos < Len(listing)) => last'.k >= 1]_vars
 \* replies consist of whole entries and never exceed the requested size
 WholeAndBounded == last.op = "read" => last.bytes <= last.c
 \* after the end reads are empty
 EmptyAtEnd == [][(last'.op = "read" /\ ~last'.err /\ pos = Len(listing)) => last'.k = 0 /\ last'.bytes = 0]_vars
+\* nothing is handed out before it was fetched, and nothing is lost: delivered entries are a prefix of the fetched ones
+FetchedCoversDelivered == Listed => (pos <= fetched /\ fetched <= Len(listing))
 =============================================================================
